@@ -9,6 +9,7 @@ import (
 	"math/rand"
 	"strings"
 	"time"
+	"unicode/utf8"
 
 	"google.golang.org/protobuf/encoding/protojson"
 	"google.golang.org/protobuf/proto"
@@ -180,6 +181,9 @@ func CheckC11(run *Run) {
 		reqs = append(reqs, r)
 	}
 	reqs = append(reqs, c11NumericCatalogue()...)
+	// rejections whose error text quotes a long token (c11_tokens.go)
+	tokReq := c11TokenCatalogue()
+	reqs = append(reqs, tokReq)
 	rng := rand.New(rand.NewSource(run.Seed + 1111))
 	rounds := 2
 	if run.Tier == "thorough" {
@@ -327,6 +331,9 @@ func CheckC11(run *Run) {
 	}
 	var ccs []CoqCase
 	var results []*CaseResult
+	// the known finding "z3:400-body-not-a-validation-error" is about bodies that are NOT valid UTF-8 (their
+	// bytes are echoed into the description, which then cannot be marshalled): the tag is given to those only
+	echoesInvalidUTF8 := make([]bool, len(cases))
 	for i, c := range cases {
 		var o RunnerObs
 		if err := json.Unmarshal(raw[i], &o); err != nil {
@@ -351,6 +358,7 @@ func CheckC11(run *Run) {
 			}
 		}
 		binary := c.ct == 1 || c.ct == 2
+		echoesInvalidUTF8[i] = !binary && !utf8.Valid(delivered)
 		desc := c.t.g.Built.MessageDesc(c.t.md.In)
 		// harness-side reading of the body
 		syntaxOK, restOK := true, false
@@ -448,12 +456,12 @@ func CheckC11(run *Run) {
 	for i, cr := range results {
 		if cr.Unmodelled == "" {
 			cr.Apply(vs[i])
-			if cr.OracleNote == "400 without a well-formed ValidationError body" {
+			if cr.OracleNote == "400 without a well-formed ValidationError body" && echoesInvalidUTF8[i] {
 				cr.Tags = append(cr.Tags, "z3:400-body-not-a-validation-error")
 			}
 		} else {
 			cr.Obs = Canon(cr.Obs)
-			if cr.OracleNote == "400 without a well-formed ValidationError body" {
+			if cr.OracleNote == "400 without a well-formed ValidationError body" && echoesInvalidUTF8[i] {
 				cr.Tags = append(cr.Tags, "z3:400-body-not-a-validation-error")
 			}
 		}
@@ -463,6 +471,8 @@ func CheckC11(run *Run) {
 	c11Clients(run, s, reqs, rng)
 	// ---- clients behind framing headers that lie (c11_framing.go) -----------------------------------
 	c11Framing(run, s, reqs, rng)
+	// ---- rejections whose error text quotes a long token (c11_tokens.go) ------------------------------
+	c11Tokens(run, s, tokReq)
 	run.Extra["targets"] = len(targets)
 	run.Finish()
 }
